@@ -41,6 +41,9 @@ INLINE = []
 PRUNE_BRANCHES = False
 # exceptional exits of one statement are taken in evaluation order (the first subexpression that raises ends the statement)
 ORDERED_RAISES = True
+# an Optional value handed to a constructor for a field declared non-Optional (a residue of an interaction) must be shown not
+# to be None there (obligation construct[..].<field>-not-None)
+NONNULL_FIELDS = True
 LW_RE = "n?[cCtT][wWhHsS][wWhHsS]a?"
 ST_RE = "n?s(33|35|53|55)a?"
 BPH_RE = "n?[0-9]BPha?"
@@ -107,12 +110,13 @@ def _ext_split(e, args, kw, node, st):
     """ASSUMED contract of str.split(sep) for a constant non-empty separator (no maxsplit): the list of pieces is a
     deterministic function of (s, sep) - uninterpreted split.n (count) and split.at (pieces) - with at least one piece.
     What the pieces ARE is stated by the assumed lemma split_characterisation (LEMMAS), used only where a proof needs it."""
-    from pyvc.values import Unsupported, VList, to_z3
-    if len(args) != 2 or kw or not isinstance(args[1], str) or args[1] == "":
+    from pyvc.values import Unsupported, VList, is_leaf, to_z3
+    symbolic_sep_in_spec = st is None and len(args) == 2 and is_leaf(args[1]) and args[1].sort() == _z3.StringSort()  # (lemma statements)
+    if len(args) != 2 or kw or not (symbolic_sep_in_spec or (isinstance(args[1], str) and args[1] != "")):
         raise Unsupported("str.split: only s.split(<constant non-empty separator>) is modelled")
-    if isinstance(args[0], str):
+    if isinstance(args[0], str) and isinstance(args[1], str):
         return e.list_literal(args[0].split(args[1]), ("str",))
-    s, sep = to_z3(args[0]), _z3.StringVal(args[1])
+    s, sep = to_z3(args[0]), to_z3(args[1])
     n = e.ufun("split.n", _z3.StringSort(), _z3.StringSort(), _z3.IntSort())(s, sep)
     at = e.ufun("split.at", _z3.StringSort(), _z3.StringSort(), _z3.ArraySort(_z3.IntSort(), _z3.StringSort()))(s, sep)
     if st is not None:
@@ -206,6 +210,15 @@ LEMMAS = {
                     "s[split_off(s, sep)[i] + len(split(s, sep)[i]):split_off(s, sep)[i + 1]] == sep))",
                     "split_off(s, sep)[len(split(s, sep))] == len(s) + len(sep)"]},
 }
+
+
+# a consequence of the characterisation, proved from it: the empty string has exactly one piece (the empty one)
+LEMMAS["split_of_empty"] = {
+    "kind": "smt", "params": ["s", "sep"], "shapes": ["str", "str"], "requires": ["len(s) == 0", "len(sep) > 0"],
+    "steps": ["use split_characterisation(s, sep)",
+              "assert split_off(s, sep)[len(split(s, sep)) - 1] + len(split(s, sep)[len(split(s, sep)) - 1]) == 0",
+              "assert implies(len(split(s, sep)) >= 2, split_off(s, sep)[len(split(s, sep)) - 1] >= len(sep))"],
+    "ensures": ["len(split(s, sep)) == 1"]}
 
 
 # --------------------------------------------------------------------------------------------- FR3D unit ids
@@ -475,8 +488,8 @@ SPEC_EXTERNALS.update({"file_lines": "spec.file_lines", "file_text": "spec.file_
 
 @spec
 def proc(s):
-    """a (stripped) line that is processed: not empty, not a comment"""
-    return len(s) > 0 and not s.startswith("#")
+    """a (stripped) line of the listing proper: not a comment line"""
+    return not s.startswith("#")
 
 
 @spec
@@ -511,9 +524,14 @@ class parse_fr3d_output_c:
          "every-parsable-line-of-the-category-is-imported"])}
     loops = {0: {"index": "i", "writes": [f"InteractionsData.{c[1]}" for c in _CATS],
                  "touches": {f"InteractionsData.{c[1]}": ["interactions_data"] for c in _CATS},
-                 "inv": [t for c in _CATS for t in _imports(c[0], c[3], f"interactions_data.{c[1]}", c[4], "i")]}}
+                 "inv": [t for c in _CATS for t in _imports(c[0], c[3], f"interactions_data.{c[1]}", c[4], "i")],
+                 "labels": {4 * k + j: f"{c[1]}-{what}" for k, c in enumerate(_CATS) for j, what in enumerate(
+                     ["one-source-line-per-interaction", "each-interaction-is-the-one-its-parsable-line-denotes", "in-line-order-each-line-once",
+                      "every-parsable-line-of-the-category-is-imported"])}}}
     ghost = [
-        {"when": "before", "at": "continue", "loop": 0, "label": "skipped-line", "do": [f"let P_{c[0]} = snoc(P_{c[0]}, 0 - 1)" for c in _CATS]},
+        # a blank line has a single (empty) tab-separated field, hence no two unit ids: skipping it loses nothing
+        {"when": "before", "at": "continue", "loop": 0, "label": "skipped-line",
+         "do": ["use split_of_empty(line, '\t') when len(line) == 0"] + [f"let P_{c[0]} = snoc(P_{c[0]}, 0 - 1)" for c in _CATS]},
         {"when": "after", "at": "_process_interaction_line(line, interactions_data)", "loop": 0, "label": "processed-line",
          "do": [cmd for c in _CATS for cmd in (
              f"let S_{c[0]} = ite(condc({c[3]}, line), snoc(S_{c[0]}, i), S_{c[0]})",
@@ -744,7 +762,7 @@ def pair_imported(s, p, b):
 
 
 _PAIR_INV = [
-    "len(S_p) == len(base_pairs) and len(base_pairs) >= 0 and len(P_p) == {n}",
+    "len(S_p) == len(base_pairs) and len(base_pairs) >= 0",
     "forall(lambda j: implies(0 <= j and j < len(S_p), 0 <= S_p[j] and S_p[j] < {n} and pair_kept(structure3d, {PL}[S_p[j]]) "
     "and pair_imported(structure3d, {PL}[S_p[j]], base_pairs[j])), pats=['S_p[j]'])",
     "forall(lambda j, j2: implies(0 <= j and j < j2 and j2 < len(S_p), S_p[j] < S_p[j2]))",
@@ -752,36 +770,6 @@ _PAIR_INV = [
 ]
 _PAIR_LABELS = ["one-source-pair-per-base-pair", "each-base-pair-joins-the-resolved-residues-with-the-named-class", "in-document-order-each-once",
                 "every-pair-with-valid-class-and-resolvable-names-is-kept"]
-
-
-class parse_dssr_pairs_c:
-    """PREFIX contract: parse_dssr_output up to (not including) the stacks loop.  D = the document whose pairs are imported
-    (the selected model's parameters, or the document itself); S_p[j] = position in D's pairs of base pair j; P_p[l] =
-    position in base_pairs of the pair at position l"""
-    params = {"file_path": "str", "structure3d": "Structure3D", "model": "opt[int]"}
-    requires = ["identified(structure3d.residues)"]
-    raises = []
-    ensures = []
-    modifies = []
-    locals = {"base_pairs": "list[rec[BasePair]]", "stackings": "list[rec[Stacking]]"}
-    callee_variants = {"match_dssr_name_to_residue": "callee"}
-    stop_before = "for stack in dssr.get('stacks'"
-    ghost_entry = ["let S_p = empty('list[int]')", "let P_p = empty('list[int]')"]
-    stop_ensures = [t.format(n="len(D.get('pairs', []))", PL="D.get('pairs', [])") for t in _PAIR_INV] + ["len(stackings) == 0"]
-    stop_ensures_labels = dict(enumerate(_PAIR_LABELS + ["no-stacking-yet"]))
-    loops = {0: {"inv": []},
-             # (the body appends to a local list; no list OBJECT - the open file's lines - is written: touches nothing)
-             1: {"index": "i", "iter": "PL", "touches": {"TextFile.lines": []}, "inv": [t.format(n="i", PL="PL") for t in _PAIR_INV],
-                 "labels": dict(enumerate(_PAIR_LABELS))}}
-    ghost = [
-        {"when": "before", "at": "for pair in dssr.get('pairs'", "label": "document-selected", "do": ["name dssr", "let D = dssr"]},
-        {"when": "after", "at": "lw = match_dssr_lw(", "loop": 1, "label": "class-name", "do": ["use lw_name_definition(some(pair.LW))"]},
-        {"when": "after", "at": "if nt1 is not None and nt2 is not None and (lw is not None)", "loop": 1, "label": "pair-done",
-         "do": ["let S_p = ite(pair_kept(structure3d, pair), snoc(S_p, i), S_p)", "let P_p = snoc(P_p, len(S_p) - 1)"]},
-    ]
-
-
-CONTRACTS.update({"parse_dssr_output@pairs": parse_dssr_pairs_c})
 
 
 # --------------------------------------------------------------------------------------------- the whole DSSR import
@@ -823,7 +811,8 @@ def _stack_inv(SL, dom, dj):
 
 class parse_dssr_output_c:
     """D = the document whose pairs / stacks are imported (the selected model's parameters, or the document itself);
-    S_p, P_p as in the prefix contract; SS, ST, POS: see _STACK_INV"""
+    S_p[j] = position in D's pairs of base pair j; P_p[l] = position in the result of the (kept) pair at position l; SS, ST, POS: see
+    _STACK_INV"""
     params = {"file_path": "str", "structure3d": "Structure3D", "model": "opt[int]"}
     requires = ["identified(structure3d.residues)"]
     returns = "rec[BaseInteractions]"
@@ -832,8 +821,8 @@ class parse_dssr_output_c:
     locals = {"base_pairs": "list[rec[BasePair]]", "stackings": "list[rec[Stacking]]"}
     callee_variants = {"match_dssr_name_to_residue": "callee"}
     prune_branches = True  # index normalisation / slice bounds decided by the path condition are not case-split again
-    ghost_returns = {"D": "DssrDoc", "S_p": "list[int]", "P_p": "list[int]", "SS": "list[int]", "ST": "list[int]", "POS": "dict[tuple[int,int],int]"}
-    ghost_entry = ["let S_p = empty('list[int]')", "let P_p = empty('list[int]')", "let SS = empty('list[int]')", "let ST = empty('list[int]')",
+    ghost_returns = {"D": "DssrDoc", "S_p": "list[int]", "P_p": "dict[int,int]", "SS": "list[int]", "ST": "list[int]", "POS": "dict[tuple[int,int],int]"}
+    ghost_entry = ["let S_p = empty('list[int]')", "let P_p = empty('dict[int,int]')", "let SS = empty('list[int]')", "let ST = empty('list[int]')",
                    "let POS = empty('dict[tuple[int,int],int]')"]
     ensures = ([t.format(n="len(D.get('pairs', []))", PL="D.get('pairs', [])").replace("base_pairs", "result.basePairs") for t in _PAIR_INV]
                + [t.replace("stackings", "result.stackings") for t in _stack_inv("D.get('stacks', [])", "a < len(D.get('stacks', []))", "SS[j] < len(D.get('stacks', []))")]
@@ -847,16 +836,15 @@ class parse_dssr_output_c:
             "labels": dict(enumerate(_STACK_LABELS))},
         3: {"touches": {"TextFile.lines": []},
             "inv": _stack_inv("SL", "(a < u or (a == u and t < i))", "(SS[j] < u or (SS[j] == u and ST[j] < i))") + ["1 <= i and len(nts) == len(members(SL[u]))"],
-            "labels": dict(enumerate(_STACK_LABELS + ["step-index"]))},
+            "labels": dict(enumerate(_STACK_LABELS + ["one-list-entry-per-stack-member"]))},
     }
     ghost = [
         {"when": "before", "at": "for pair in dssr.get('pairs'", "label": "document-selected", "do": ["name dssr", "let D = dssr"]},
         {"when": "after", "at": "lw = match_dssr_lw(", "loop": 1, "label": "class-name", "do": ["use lw_name_definition(some(pair.LW))"]},
-        {"when": "after", "at": "if nt1 is not None and nt2 is not None and (lw is not None)", "loop": 1, "label": "pair-done",
-         "do": ["let S_p = ite(pair_kept(structure3d, pair), snoc(S_p, i), S_p)", "let P_p = snoc(P_p, len(S_p) - 1)"]},
-        {"when": "after", "at": "if nt1 is not None and nt2 is not None:", "loop": 3, "label": "step-done",
-         "do": ["let SS = ite(step_ok(structure3d, SL[u], i), snoc(SS, u), SS)", "let ST = ite(step_ok(structure3d, SL[u], i), snoc(ST, i), ST)",
-                "let POS = dstore(POS, (u, i), len(SS) - 1)"]},
+        {"when": "after", "at": "base_pairs.append(", "loop": 1, "label": "pair-kept",
+         "do": ["let S_p = snoc(S_p, i)", "let P_p = dstore(P_p, i, len(S_p) - 1)"]},
+        {"when": "after", "at": "stackings.append(", "loop": 3, "label": "step-kept",
+         "do": ["let SS = snoc(SS, u)", "let ST = snoc(ST, i)", "let POS = dstore(POS, (u, i), len(SS) - 1)"]},
     ]
 
 
